@@ -60,6 +60,7 @@ def run(ctx):
     ctx.rule("R03.2", "every transfer the engine can emit goes to config.insurance_fund / config.fee_pool / the engine itself / the acting trader / the stored liquidator, and is paid by the acting trader or the vault", 8)
     ctx.rule("R03.3", "liquidation replies never name the liquidated trader as receiver or payer", 2)
     ctx.rule("R03.4", "insurance fund Withdraw pays config.engine in both collateral arms", 2)
+    ctx.rule("R03.5", "the liquidator a liquidation reply pays is this transaction's sender: Liquidate stores info.sender in the in-flight slot unconditionally on every success path", 1)
 
     # ---------------------------------------------------------------- R03.1
     census = {}
@@ -190,6 +191,38 @@ def run(ctx):
                  "%d transfer constructions over %d success paths: %s%s" % (n_t, len(st.ok_paths()), sorted(kinds),
                     ("; VIOLATING: " + "; ".join(sorted(set(bad)))) if bad else ""))
         ctx.note_paths(len(st.ok_paths()))
+
+    # ---------------------------------------------------------------- R03.5
+    # the "stored liquidator" a liquidation reply pays is only the sender of *this* transaction if the Liquidate handler
+    # writes the slot on every success path, unconditionally, with info.sender; a conditional store (slot occupied, fee
+    # zero, ...) lets an address left behind by an earlier liquidation collect the fee
+    n5 = 0
+    for (st, roots, depth) in sorted(steps.values(), key=lambda x: (sorted(x[1]), x[2], x[0].label)):
+        if depth != 0:
+            continue
+        writes_liq = False
+        bad = None
+        n_p = 0
+        for q in st.ok_paths():
+            n_p += 1
+            good = False
+            for wr in st.writes(q):
+                if wr["item"] != LIQ:
+                    continue
+                writes_liq = True
+                if wr["kind"] == "write" and wr["must"] and wr["value"] is not None and st.c(wr["value"]) == st.sender:
+                    good = True
+                elif wr["kind"] == "write":
+                    bad = bad or ("the slot is written %s with %s" % ("conditionally" if not wr["must"] else "unconditionally", sym.show(st.c(wr["value"]), 5) if wr["value"] is not None else "?"))
+            if "Liquidate" in roots and not good:
+                bad = bad or "a success path does not (unconditionally) store info.sender as the liquidator"
+        if "Liquidate" in roots:
+            n5 += 1
+            ctx.inst("R03.5", "liquidator-is-sender:%s" % st.label, bad is None and n_p > 0, st.fn.where(),
+                     bad or "%d success paths, each stores info.sender into the liquidator slot unconditionally" % n_p)
+        elif writes_liq:
+            n5 += 1
+            ctx.inst("R03.5", "liquidator-slot-foreign-writer:%s" % st.label, False, st.fn.where(), "a non-liquidation arm writes the liquidator slot")
 
     # ---------------------------------------------------------------- R03.4
     IFC = "margined_insurance_fund"
